@@ -23,6 +23,9 @@ Implementation side (supporting evidence and the failing-input search; tolerance
   inplace  chains of op(sm, inplace=True) directly on a freshly built StateMatrix / right after PD (scalar and batched density):
            equilibrium array untouched, E / SPOILER contract the deviation from (0,0,PD) (0 stays 0), norm and F0 == ensemble,
            closed forms of T,E, equality with the out-of-place run after every step
+  diffk    S(k) then D(tau, D, k=k) (scalar / vector k, 1-D and n-D coordinates, kvalue 1..1000) on systems at rest and on general
+           states: Z(k=0) unchanged (b = 0), deviation from equilibrium and norm do not grow, rest stays rest, conjugate symmetry,
+           every coefficient attenuated by a real factor in [0, 1]
   PD(p, reset=True/False) and RESET are placed MID-sequence (after shifts) in the signal, rms, ndcap, bfloat, ndbatch streams;
            bounds are taken w.r.t. the current density, and the state after PD(reset=True) / RESET must BE the equilibrium
   info     with T2 > 2 T1 the bound can fail (recorded in the evidence, not a violation)
@@ -847,8 +850,75 @@ def check_inplace(case):
     return None
 
 
+# ------------------------------------------------------------------ diffusion with a gradient argument: D(tau, D, k=...)
+def gen_diffk(rng):
+    """S(k) then D(tau, D, k=k) on equilibrium and on general states, 1-D and n-D coordinates, scalar / vector k, kvalue scales"""
+    pd = float(rng.choice([0.5, 1, 1, 2]))
+    kv = rng.choice([1, 50, 300, 1000])
+    nd = rng.choice([0, 0, 2, 3])
+    prefix = []
+    if rng.random() < 0.6:                       # general state; otherwise the system is at rest
+        for _ in range(rng.randint(1, 3)):
+            prefix.append("epg.T(%s, %s)" % (r(rng, 10, 170), r(rng, -180, 180)))
+            if nd:
+                v = [rng.choice([0, 1, -1, 2]) for _ in range(nd)]
+                v[0] = v[0] or 1
+                prefix.append("epg.S(np.array(%s))" % v)
+            else:
+                prefix.append("epg.S(%d)" % rng.choice([1, 1, 2, -1]))
+            if rng.random() < 0.5:
+                T1 = r(rng, 100, 2000)
+                prefix.append("epg.E(%s, %s, %s, %s)" % (r(rng, 1, 40), T1, r(rng, 10, 2 * T1), r(rng, -0.05, 0.05, 4)))
+        if rng.random() < 0.5:
+            prefix.append("epg.T(%s, %s)" % (r(rng, 10, 170), r(rng, -180, 180)))
+    if nd and rng.random() < 0.6:
+        v = [rng.choice([0, 1, -1, 2, 3]) for _ in range(nd)]
+        v[0] = v[0] or 1
+        shift, kk = "epg.S(np.array(%s))" % v, str(v)
+    else:
+        d = rng.choice([1, 2, 3, -1, -2])
+        kk = str(d)
+        # a scalar gradient on n-D coordinates acts along the first axis, like the scalar shift
+        shift = "epg.S(%d)" % d if (not nd or prefix) else "epg.S(np.array(%s))" % ([d] + [0] * (nd - 1))
+    op = "epg.D(%s, %s, k=%s)" % (r(rng, 1, 100), r(rng, 0.1, 5), kk)
+    return {"kind": "diffk", "pd": pd, "kvalue": kv, "prefix": prefix, "shift": shift, "op": op,
+            "opk": "%s %s kv%s" % ("rest" if not prefix else "general", "nd" if nd else "1d", kv)}
+
+
+def check_diffk(case):
+    import epgpy as epg
+    e = env()
+    sm = epg.StateMatrix(density=case["pd"], kvalue=case["kvalue"])
+    for x in case["prefix"] + [case["shift"]]:
+        sm = eval(x, e)(sm)
+    sm1 = eval(case["op"], e)(sm)
+    where = "under %s after %s on StateMatrix(density=%s, kvalue=%s)" % (case["op"], case["prefix"] + [case["shift"]], case["pd"], case["kvalue"])
+    z0, z1 = np.asarray(sm.states)[..., sm.nstate, 2], np.asarray(sm1.states)[..., sm1.nstate, 2]
+    if np.asarray(sm1.states).shape != np.asarray(sm.states).shape:
+        return "D changed the number of states %s" % where
+    if not close(np.abs(z1 - z0), 0):
+        return "the zero-wavenumber longitudinal state (b = 0) changed: Z0 %s -> %s %s" % (np.ravel(z0).tolist(), np.ravel(z1).tolist(), where)
+    d0, d1 = dev_norm(sm), dev_norm(sm1)
+    if not leq(d1, d0):
+        return "norm of (states - equilibrium) increased: %s -> %s %s" % (np.asarray(d0).tolist(), np.asarray(d1).tolist(), where)
+    if not case["prefix"] and not close(d1, 0):
+        return "a system at rest does not stay at equilibrium: |states - equilibrium| = %s %s" % (np.asarray(d1).tolist(), where)
+    if not leq(sm1.norm, sm.norm):
+        return "norm increased: %s -> %s %s" % (np.asarray(sm.norm).tolist(), np.asarray(sm1.norm).tolist(), where)
+    why = symmetry_violation(sm1)
+    if why:
+        return "%s %s" % (why, where)
+    # every coefficient is attenuated by a real factor in [0, 1]
+    a0, a1 = np.asarray(sm.states), np.asarray(sm1.states)
+    big = np.abs(a0) > 1e-6
+    ratio = a1[big] / a0[big]
+    if ratio.size and (np.abs(ratio.imag).max() > 1e-9 or ratio.real.min() < -1e-12 or ratio.real.max() > 1 + 1e-12):
+        return "attenuation factors outside [0, 1] (min %.12g, max %.12g, imaginary part %.3g) %s" % (ratio.real.min(), ratio.real.max(), np.abs(ratio.imag).max(), where)
+    return None
+
+
 CHECKS = {"iso": check_iso, "contract": check_contract, "rms": check_rms, "signal": lambda c: check_signal(c)[0],
-          "normcorr": lambda c: check_normcorr(c), "ndcap": check_nd, "bfloat": check_nd, "ndbatch": check_nd, "kfloat": check_nd, "inplace": check_inplace}
+          "normcorr": lambda c: check_normcorr(c), "ndcap": check_nd, "bfloat": check_nd, "ndbatch": check_nd, "kfloat": check_nd, "inplace": check_inplace, "diffk": check_diffk}
 
 
 def run_stream(ctx, name, gen, n):
@@ -974,6 +1044,7 @@ def run(ctx):
     nb += run_stream(ctx, "ndbatch", gen_ndbatch, 100 * n)
     nb += run_stream(ctx, "kfloat", gen_kfloat, 80 * n)
     nb += run_stream(ctx, "inplace", gen_inplace, 150 * n)
+    nb += run_stream(ctx, "diffk", gen_diffk, 150 * n)
     nb += norm_correspondence(ctx, 60 if quick else 2000)
     try:
         demo_T2_gt_2T1(ctx)
